@@ -244,6 +244,11 @@ impl Report {
             witness,
         });
     }
+    /// number of distinct violation signatures recorded so far
+    pub fn violations_len(&self) -> usize {
+        self.violations.len()
+    }
+
     pub fn inconclusive(&mut self, reason: &str) {
         if !self.inconclusive.iter().any(|r| r == reason) {
             self.inconclusive.push(reason.to_string());
